@@ -5,4 +5,4 @@ package props
 import "verif/harness/evlog"
 
 func setHookDelays(l *evlog.Log, d map[string]int) {}
-func armHook(point string, n, ms int)               {}
+func armHook(point string, n, ms int)              {}
